@@ -10,7 +10,7 @@ import (
 	"verifharness/run"
 )
 
-var MixCommit = gen.Mix{"commitClaimed": 8, "uncommit": 6, "vest": 10, "claimVesting": 12, "cancelVest": 8, "vestNow": 4, "stake": 4, "unstake": 3, "delegate": 3, "undelegate": 3, "estWithdraw": 3,
+var MixCommit = gen.Mix{"vestLiquid": 4, "commitClaimed": 8, "uncommit": 6, "vest": 10, "claimVesting": 12, "cancelVest": 8, "vestNow": 4, "stake": 4, "unstake": 3, "delegate": 3, "undelegate": 3, "estWithdraw": 3,
 	"mcClaim": 4, "joinAll": 4, "joinSingle": 3, "exit": 5, "bond": 4, "unbond": 4, "swapIn1": 6, "levOpen": 3, "levClose": 3, "levBot": 1}
 
 // commit-life: the commitment ledger under every caller: Eden/EdenB obtained from genesis grants and
@@ -35,6 +35,18 @@ func init() {
 		w.Step(5, w.Tx(o, &commitmenttypes.MsgCancelVest{Creator: o.S(), Amount: math.NewInt(400), Denom: "ueden"}))
 		w.Step(5, w.Tx(o, &commitmenttypes.MsgClaimVesting{Sender: o.S()}))
 		c.Ev("claim_cancel_claim_sequence")
+		// liquid vesting of an externally issued asset (uatom -> uatom) next to an Eden vesting of the
+		// same account; both released by one claim
+		if w.GovExec("liquid vesting", &commitmenttypes.MsgUpdateVestingInfo{Authority: w.Gov, BaseDenom: "uatom", VestingDenom: "uatom", NumBlocks: nb, VestNowFactor: 5, NumMaxVestings: 6}) {
+			c.Ev("liquid_vesting_info_added")
+			lv := u[6]
+			w.Step(5, w.Tx(lv, &commitmenttypes.MsgVestLiquid{Creator: lv.S(), Amount: math.NewInt(123_456_789), Denom: "uatom"}))
+			w.Step(5, w.Tx(lv, &commitmenttypes.MsgVest{Creator: lv.S(), Amount: math.NewInt(1_000_000), Denom: "ueden"}))
+			for i := 0; i < 3; i++ {
+				w.Step(5)
+			}
+			w.Step(5, w.Tx(lv, &commitmenttypes.MsgClaimVesting{Sender: lv.S()}))
+		}
 		g := v.Gen(w, c, MixCommit)
 		g.FeeProb = 0.3
 		n := c.N(200, 600)
